@@ -4,7 +4,7 @@
 # (builds; demo fails with / passes without; suite passes with), then applies it to /repo,
 # runs the named checks and reverts. Prints one RESULT line.
 pid=$1; X=$2; shift 2
-w=/tmp/seed2/$pid
+w=${SEEDROOT:-/tmp/seed2}/$pid
 export GOFLAGS=-mod=mod GOPROXY=off GOSUMDB=off GOTOOLCHAIN=local
 cd $w || exit 2
 patch=SEED_${X}_patch.diff; demo=SEED_${X}_demo_test.go.txt; meta=SEED_${X}_meta.json
